@@ -336,6 +336,10 @@ func driveIO(s *shardSet, rng *rand.Rand, thorough bool) ([]string, map[string]i
 							w.Write(buf, sty, w.stamps(m))
 							w.Read(buf, sty, m)
 							w.Write(buf, sty, w.stamps(m-1))
+							// inputs longer than a buffer that ends inside a frame: nothing beyond Len may be touched
+							w.Write(buf, sty, w.stamps(m+1))
+							w.Write(buf, sty, w.stamps(m+ch+2))
+							w.Read(buf, sty, m+ch+2)
 						}
 					}
 				}
